@@ -318,7 +318,11 @@ func runStrgen(c strgenCase, r *pb.Rec) error {
 	}
 	// the same generator again with another length
 	n2 := (c.N*7 + 3) % 97
+	outKeep := strings.Clone(out)
 	out2 := gen.Generate(n2)
+	if out != outKeep {
+		return fmt.Errorf("the string returned by Generate(%d) changed after the next Generate call", c.N)
+	}
 	if k := utf8.RuneCountInString(out2); k != n2 || !utf8.ValidString(out2) {
 		return fmt.Errorf("second Generate(%d) on the same generator returned %d runes: %q", n2, k, out2)
 	}
